@@ -728,7 +728,7 @@ func c08key(c c08case, op, got, want string) string {
 		}
 		return "heap-" + shape + "-" + strings.Join(ks, "+")
 	}
-	return "rich-" + f[1] + "-" + shape
+	return c.class + "-" + f[1] + "-" + shape
 }
 
 var c08lastErr string
